@@ -603,3 +603,88 @@ def run_raisetest(prog, ctx=None):
                 verdict = (True, "")
             res.ob("%s:%s" % (f.qn, what), verdict[0], f, n.get("l", f.line) or f.line, verdict[1])
     return res
+
+
+def run_addreffail(prog, ctx=None):
+    """ADDREFFAIL: a reference taken through an `addref` slot is given back on the way to a refusal.  From the edge on which
+    `X->_vptr->addref(X)` answered non-zero, every path to a `return <negative constant>` / `return 0` of a pointer function
+    passes `unref(X)`, a store of X into memory (the reference travels with the slot) or a call that is handed X.  A
+    refusal behind a successful addref leaves a count no handle owns: the object is never destroyed and reports itself as
+    shared."""
+    res = Result("ADDREFFAIL")
+    from .rules_path import funcs_of
+    files = set(ctx.get("files", [])) if ctx else None
+    for f in funcs_of(prog, files):
+        T = f.T(f.ret)
+        if T.get("k") not in ("ptr", "int"):
+            continue
+        for bid, blk in sorted(f.blocks.items()):
+            if not (blk.term and blk.term.get("cond") is not None and len(blk.succ) == 2):
+                continue
+            c = strip(blk.term["cond"], all_casts=True)
+            if blk.term.get("cls") != "BinaryOperator":
+                while c.get("k") == "bin" and c.get("op") in ("&&", "||"):
+                    c = strip(c["b"], all_casts=True)
+            neg = False
+            while c.get("k") == "un" and c.get("op") == "!":
+                neg = not neg
+                c = strip(c["e"], all_casts=True)
+            if c.get("k") != "call" or c.get("callee") is None or not c.get("args"):
+                continue
+            cal = strip(c["callee"], all_casts=True)
+            if not (cal.get("k") == "mem" and cal.get("f") == "addref"):
+                continue
+            x = strip(c["args"][0], all_casts=True)
+            if x.get("k") != "ref" or "id" not in x["d"]:
+                continue
+            xid, xn = x["d"]["id"], x["d"]["n"]
+            held = blk.succ[1 if neg else 0]
+            if held is None:
+                continue
+            gives = set()
+            for b2, i2, e2 in f.elements():
+                for n in walk_own(e2):
+                    if n.get("k") == "call":
+                        ce = strip(n["callee"], all_casts=True) if n.get("callee") is not None else {}
+                        isunref = (ce.get("k") == "mem" and ce.get("f") == "unref") or (callee_name(n) or "").endswith("unref")
+                        handed = any(strip(a, all_casts=True).get("k") == "ref" and strip(a, all_casts=True)["d"].get("id") == xid for a in n.get("args", []))
+                        if handed and (isunref or not (ce.get("k") == "mem" and ce.get("f") in ("addref", "get_flags"))):
+                            gives.add(b2.id)
+                    if n.get("k") == "bin" and n.get("op") == "=":
+                        l = strip(n["a"], lvalue_to_rvalue=False)
+                        r = strip(n["b"], all_casts=True)
+                        if l.get("k") in ("mem", "un", "idx") and r.get("k") == "ref" and r["d"].get("id") == xid:
+                            gives.add(b2.id)
+                if e2.get("k") == "ret" and e2.get("e") is not None:
+                    r = strip(e2["e"], all_casts=True)
+                    if any(m.get("k") == "ref" and m["d"].get("id") == xid for m in walk(r)):
+                        gives.add(b2.id)
+            # X is non-null on the held edge: branches on X itself go one way only
+            reach = set()
+            work = [held]
+            while work:
+                b3 = work.pop()
+                if b3 in reach or b3 in gives:
+                    continue
+                reach.add(b3)
+                blk3 = f.blocks[b3]
+                succ = list(blk3.succ)
+                if blk3.term and blk3.term.get("cond") is not None and len(succ) == 2:
+                    c3 = strip(blk3.term["cond"], all_casts=True)
+                    n3 = False
+                    while c3.get("k") == "un" and c3.get("op") == "!":
+                        n3 = not n3
+                        c3 = strip(c3["e"], all_casts=True)
+                    if c3.get("k") == "ref" and c3["d"].get("id") == xid:
+                        succ = [succ[1 if n3 else 0]]
+                work.extend(s3 for s3 in succ if s3 is not None)
+            bad = None
+            for b2, i2, e2 in f.elements():
+                if b2.id in reach and e2.get("k") == "ret" and e2.get("e") is not None:
+                    v = cval(e2["e"])
+                    if v is not None and (v < 0 or (v == 0 and T.get("k") == "ptr")):
+                        bad = e2
+            res.ob("%s:addref(%s)" % (f.qn, xn), bad is None, f, (bad.get("l") if bad else c.get("l")) or f.line,
+                   "" if bad is None else "after %s->addref() succeeded `%s` refuses the call without giving the reference back (no unref(%s), no store of %s on that path): the count stays one above the number of handles" % (
+                       xn, norm(show(bad, f)), xn, xn))
+    return res
